@@ -1,6 +1,156 @@
-(* C07 — stub (being built) *)
-From PV Require Import Base Dialect.
-Definition C07_full_statement : Prop := True.
-Theorem C07_holds : C07_full_statement.
-Proof. exact I. Qed.
-Print Assumptions C07_holds.
+(* C07 — One dialect context governs the whole statement at every depth.
+   Statement, closing [exact]s, witnesses and Print Assumptions only; the work is in lemmas/Dialect*.v.
+
+   Objects: [query] = statement specs of the ten query classes (coq/Query.v) whose (sub-)statements each carry the class
+   that built them; [rho] re-labels the classes ([fun c => c]: as labelled, [fun _ => c]: the same specification built
+   by class c at every level); [str_toks rho n x] = str(query) as a list of role-tagged tokens (coq/Dialect.v), whose
+   text is compared with pypika and with Query.str_query on every run; [n] is recursion fuel (one unit per nesting
+   level, out-of-fuel is an error value, so "= Ok ts" excludes it). *)
+From PV Require Import Base Crit gen.TermsTable Terms Page gen.QueryTable Query QueryCorr Dialect DialectCorr.
+From PV Require Import lemmas.DialectTerms lemmas.DialectQuery lemmas.DialectProps.
+
+Definition C07_full_statement : Prop :=
+  forall (rho : cls -> cls) (n : nat) (x : query) (ts : list dtok),
+    str_toks rho n x = Ok ts ->
+    let c := top_cls_r rho x in
+    (* every identifier, alias, query alias, string literal and AS-keyword choice, at every nesting depth, follows the
+       OUTER class's convention, whatever classes built the sub-queries *)
+    Forall (strict_tok (conv_cls c) (qalias_quote c)) ts
+    (* and, apart from the documented vendor differences (erased by [erase]: AS keyword, pagination, boolean form,
+       GROUP BY alias-vs-expression, set-operation parentheses, ARRAY form, ClickHouse UPDATE/DELETE keywords), the
+       token sequence is the same whichever classes build the statement *)
+    /\ (forall rho' ts', str_toks rho' n x = Ok ts' -> erase ts' = erase ts).
+
+(* ---- refuted: the faithful model reproduces pypika's deviations (each witness is also a corpus case) ---- *)
+Theorem C07_refuted : ~ C07_full_statement.
+Proof.
+  intros H. destruct (H rid FUEL w_fn_alias (toks_of w_fn_alias) eq_refl) as [Hs _].
+  apply strict_all_spec in Hs. vm_compute in Hs. discriminate Hs.
+Qed.
+Print Assumptions C07_refuted.
+
+(* the distinct ways in which it fails: model text = pypika's text, and some token is not strict *)
+Example C07_witness_function_arg_alias :        (* Snowflake outer, generic sub-query inside COALESCE: inner alias bare *)
+  query_text w_fn_alias = w_fn_alias_text /\ res_text (str_toks rid FUEL w_fn_alias) = w_fn_alias_text /\ strict_ok w_fn_alias = false.
+Proof. vm_compute. repeat split. Qed.
+Example C07_witness_function_arg_as_keyword :   (* generic outer, ClickHouse sub-query inside a function: keeps its AS *)
+  query_text w_fn_as = w_fn_as_text /\ res_text (str_toks rid FUEL w_fn_as) = w_fn_as_text /\ strict_ok w_fn_as = false.
+Proof. vm_compute. repeat split. Qed.
+Example C07_witness_query_alias_inner_class :   (* MySQL outer, PostgreSQL sub-query in FROM: its alias gets PostgreSQL's quote *)
+  query_text w_qalias = w_qalias_text /\ res_text (str_toks rid FUEL w_qalias) = w_qalias_text /\ strict_ok w_qalias = false.
+Proof. vm_compute. repeat split. Qed.
+Example C07_witness_set_operation_operands :    (* each operand of a top-level set operation fills in its own alias convention *)
+  query_text w_setop_mixed = w_setop_mixed_text /\ res_text (str_toks rid FUEL w_setop_mixed) = w_setop_mixed_text
+  /\ strict_ok w_setop_mixed = false.
+Proof. vm_compute. repeat split. Qed.
+Example C07_witness_cte_name_bare :             (* WITH names are never quoted *)
+  query_text w_cte = w_cte_text /\ res_text (str_toks rid FUEL w_cte) = w_cte_text /\ strict_ok w_cte = false.
+Proof. vm_compute. repeat split. Qed.
+Example C07_witness_criterion_alias_bare :      (* quote_char does not reach the alias of a comparison *)
+  query_text w_crit_alias = w_crit_alias_text /\ res_text (str_toks rid FUEL w_crit_alias) = w_crit_alias_text
+  /\ strict_ok w_crit_alias = false.
+Proof. vm_compute. repeat split. Qed.
+Example C07_witness_set_operation_order_by :    (* Snowflake: selected alias quoted, the ORDER BY reference to it bare *)
+  query_text w_setop_order = w_setop_order_text /\ res_text (str_toks rid FUEL w_setop_order) = w_setop_order_text
+  /\ strict_ok w_setop_order = false.
+Proof. vm_compute. repeat split. Qed.
+Example C07_witness_function_arg_term_alias :   (* Snowflake: an aliased literal inside a function call loses the alias quote *)
+  query_text w_fn_term_alias = w_fn_term_alias_text /\ res_text (str_toks rid FUEL w_fn_term_alias) = w_fn_term_alias_text
+  /\ strict_ok w_fn_term_alias = false.
+Proof. vm_compute. repeat split. Qed.
+Example C07_witness_function_arg_groupby_alias : (* Oracle outer: groupby_alias=False is lost below a function call *)
+  query_text w_fn_gba = w_fn_gba_text /\ res_text (str_toks rid FUEL w_fn_gba) = w_fn_gba_text.
+Proof. vm_compute. repeat split. Qed.
+Example C07_witness_function_arg_literal_quote : (* explicit secondary_quote_char is lost below a function call *)
+  res_text (kw_toks rid FUEL w_fn_literal_kw w_fn_literal) = w_fn_literal_text
+  /\ sres_text (rquery (kw_ctx rid w_fn_literal_kw w_fn_literal) false false None w_fn_literal) = w_fn_literal_text.
+Proof. vm_compute. repeat split. Qed.
+
+(* ---- what holds, in full generality (all statements, all labellings, all depths) ---- *)
+
+(* 1. EXACT characterisation: every token carries the quote that its origin prescribes — identifiers always the
+      outermost quote_char; aliases / literals / AS the values of whoever supplied those three kwargs (the outermost
+      call, the fall-backs below a function call, or the class of a sub-query that sits below a function call);
+      a sub-query's alias the query-alias quote of the class that built it; WITH names none. *)
+Theorem C07_exact_holds :
+  forall rho n x ts, str_toks rho n x = Ok ts -> Forall (exact_tok (conv_x rho x)) ts.
+Proof. exact str_toks_exact. Qed.
+Print Assumptions C07_exact_holds.
+
+Theorem C07_exact_kwargs_holds :
+  forall rho n kw x ts, kw_toks rho n kw x = Ok ts -> Forall (exact_tok (conv_of (kc (kw_ctx rho kw x)))) ts.
+Proof. exact kw_toks_exact. Qed.
+Print Assumptions C07_exact_kwargs_holds.
+
+(* 2. identifiers and string literals of str(query): the OUTER class's quote_char / secondary quote at every depth,
+      including function arguments, CASE branches, joins, set-operation operands, sub-queries of any class *)
+Theorem C07_identifiers_literals_hold :
+  forall rho n x ts, str_toks rho n x = Ok ts -> Forall (ident_lit_tok (top_cls_r rho x)) ts.
+Proof. exact str_toks_ident_lit. Qed.
+Print Assumptions C07_identifiers_literals_hold.
+
+(* 3. the second sentence of the property, unrestricted: devendored + quote-erased token sequences coincide for any two
+      labellings (in particular for any two of the ten classes building the same specification), and for any explicit
+      quote kwargs *)
+Theorem C07_tokens_same_holds :
+  forall rho rho' n x ts ts', str_toks rho n x = Ok ts -> str_toks rho' n x = Ok ts' -> erase ts = erase ts'.
+Proof. exact str_toks_same. Qed.
+Print Assumptions C07_tokens_same_holds.
+
+Theorem C07_tokens_same_kwargs_holds :
+  forall rho rho' n kw kw' x ts ts', kw_toks rho n kw x = Ok ts -> kw_toks rho' n kw' x = Ok ts' -> erase ts = erase ts'.
+Proof. exact kw_toks_same. Qed.
+Print Assumptions C07_tokens_same_kwargs_holds.
+
+(* 4. the per-token claim on the fragment "no alias / AS / query-alias token whose origin's convention differs from the
+      outer one" (decidable on the rendering: [benign_tok]) *)
+Theorem C07_on_fragment :
+  forall rho n x ts qa, str_toks rho n x = Ok ts ->
+    forallb (benign_tok (conv_x rho x) qa) ts = true -> Forall (strict_tok (conv_x rho x) qa) ts.
+Proof. exact str_toks_strict_on_fragment. Qed.
+Print Assumptions C07_on_fragment.
+
+(* 5. outermost class wins: _set_kwargs_defaults only fills absent keys; once the outer query has filled them a nested
+      query of ANY class leaves the context alone (up to groupby_alias, which can only be switched off); below a
+      function call the keys are absent again and the inner class's values come back *)
+Theorem C07_outermost_wins :
+  (forall c k, k_abs k = false -> kc (defaults c k) = kc k)
+  /\ (forall c c' k, kc (defaults c' (defaults c k)) = kc (defaults c k))
+  /\ (forall c k, q (kc (defaults c k)) = q (kc k) /\ dia (kc (defaults c k)) = dia (kc k))
+  /\ (forall c k, k_gba (defaults c k) = cls_gba c && k_gba k)
+  /\ (forall c k, let k' := defaults c (fk k) in
+        sq (kc k') = cls_sq c /\ aq (kc k') = cls_aq c /\ askw (kc k') = cls_askw c /\ q (kc k') = q (kc k) /\ k_gba k' = cls_gba c).
+Proof.
+  split; [exact defaults_present|]. split; [exact defaults_outer_wins|]. split; [exact defaults_quote_kept|].
+  split; [exact defaults_gba|exact defaults_below_function].
+Qed.
+Print Assumptions C07_outermost_wins.
+
+(* 6. expressions: the token view IS the shared renderer (Terms.render), so 1-3 hold of Terms.render itself *)
+Theorem C07_terms_token_view :
+  forall t c og, render c t = rmap tflat (ttoks c og t).
+Proof. exact ttoks_render. Qed.
+Print Assumptions C07_terms_token_view.
+
+Theorem C07_terms_exact :
+  forall t c og v ts, ctx_ok v og c -> ttoks c og t = Ok ts -> Forall (exact_tok v) ts.
+Proof. exact ttoks_exact. Qed.
+Print Assumptions C07_terms_exact.
+
+(* quote-parametricity of Terms.render: contexts that agree on with_alias / with_namespace / subquery / subcriterion give
+   the same erased tokens (and fail on the same terms), whatever their quote characters, AS keyword and dialect *)
+Theorem C07_terms_quote_parametric :
+  forall t c c' og og', csim c c' -> erase_res (ttoks c og t) = erase_res (ttoks c' og' t).
+Proof. exact ttoks_erase. Qed.
+Print Assumptions C07_terms_quote_parametric.
+
+(* ---- non-vacuity: a three-level statement whose five sub-queries come from five classes ---- *)
+Example C07_example_nested :
+  query_text p_nested = p_nested_text
+  /\ res_text (str_toks rid FUEL p_nested) = p_nested_text
+  /\ strict_ok p_nested = true
+  /\ forallb (benign_tok (conv_x rid p_nested) (qalias_quote CMySQL)) (toks_of p_nested) = true
+  /\ erase_res (str_toks (relabel (Some CSnowflake)) FUEL p_nested) = erase_res (str_toks rid FUEL p_nested)
+  /\ erase_res (str_toks (relabel (Some CClickHouse)) FUEL p_nested) = erase_res (str_toks (relabel (Some COracle)) FUEL p_nested)
+  /\ res_text (str_toks (relabel (Some CSnowflake)) FUEL p_nested) <> res_text (str_toks rid FUEL p_nested).
+Proof. vm_compute. repeat split. discriminate. Qed.
